@@ -572,7 +572,22 @@ def r10_names_structural(c, facts):
         c.bad(R, 'entry-new-rewrites-name', 'Entry::new no longer stores its two arguments unchanged as the two components of the key')
 
 
+def r13_lexical_eval(c, facts, rule='C08.R13'):
+    """a variable evaluates to what the resolver bound it to; the dynamic scope stack is consulted by name only for binder
+    nodes (parameters, rec binders), which the resolver has already matched with their uses"""
+    R = c.rule(rule, 'LEXICAL-EVAL: the evaluator looks a name up on its scope stack only to evaluate a binder node (eval_binding)')
+    lb = c.anchor(R, 'oal_compiler::eval::Context::lookup_binding')
+    callers = [f for f in facts.fns.values() if f.mir and any((callee_of(t) or {}).get('resolved_id', (callee_of(t) or {}).get('id')) == lb.id or (callee_of(t) or {}).get('id') == lb.id for b, t in f.calls())]
+    c.floor(R, 'callers of Context::lookup_binding', len(callers), 1)
+    outside = sorted({f.qname.split('::{closure')[0] for f in callers if not facts.reached_only_through(f, {'oal_compiler::eval::eval_binding'})})
+    if outside:
+        c.bad(R, 'dynamic-lookup-from:%s' % ','.join(x.split('::')[-1] for x in outside), '%s look(s) a name up on the evaluation scope stack outside eval_binding: a variable the resolver bound to a declaration can evaluate to a same-named parameter of whoever is being applied (dynamic scoping)' % outside)
+    else:
+        c.ok(R, {'lookup_binding': 'reached from eval_binding only', 'callers': sorted(f.qname for f in callers)})
+
+
 def run(c, facts):
+    c.run(r13_lexical_eval, facts)
     import c10
     import c09
     import grammar
